@@ -446,6 +446,57 @@ func resolveRenames(p *Prog) []string {
 			k := shapeKey{relPkg(pkgOfFunc(f).Pkg), sh.Recv, sh.Sig}
 			candBy[k] = append(candBy[k], f)
 		}
+		// a method moved to a type that its old receiver type now embeds: the old type still has the method (promoted),
+		// so every caller and every rule still means the same code
+		for _, id := range missing {
+			want := inv[id]
+			if want.Recv == "" || !strings.HasPrefix(want.Recv, "*") {
+				continue
+			}
+			i := strings.LastIndex(id, ").")
+			if i < 0 {
+				continue
+			}
+			mname := id[i+2:]
+			var pkgT *types.Package
+			var recvT types.Type
+			for _, path := range sortedKeys(p.ModPkgs) {
+				pk := p.ModPkgs[path].Types
+				if relPkg(pk) != want.Pkg {
+					continue
+				}
+				tname := strings.TrimPrefix(want.Recv, "*"+want.Pkg+".")
+				if o := lookupByCanonName(pk.Scope(), tname); o != nil {
+					if tn, ok := o.(*types.TypeName); ok {
+						pkgT, recvT = pk, types.NewPointer(tn.Type())
+					}
+				}
+			}
+			if recvT == nil {
+				continue
+			}
+			sel := types.NewMethodSet(recvT).Lookup(pkgT, mname)
+			if sel == nil || len(sel.Index()) < 2 {
+				continue // not there, or not promoted through an embedded field
+			}
+			fobj, ok := sel.Obj().(*types.Func)
+			if !ok {
+				continue
+			}
+			f := p.SSA.FuncValue(fobj)
+			if f == nil || f.Blocks == nil {
+				continue
+			}
+			if _, taken := canonFuncs[f]; taken {
+				continue
+			}
+			sh := funcShape(f)
+			if sh.Sig != want.Sig {
+				continue
+			}
+			canonFuncs[f] = id
+			notes = append(notes, fmt.Sprintf("%s is analysed as %s (the method moved to an embedded type and is promoted)", rawFuncID(f), id))
+		}
 		for _, k := range order {
 			ms, cs := missBy[k], candBy[k]
 			if len(ms) != len(cs) {
